@@ -288,7 +288,9 @@ def frames(kind: str, raw, tmp):
         data = pd.DataFrame([st[s][0].data for s in raw], index=idx)
         prices = pd.DataFrame([st[s][1] for s in raw], index=idx)
         fr = {"aave": data, "prices": prices}
-        return fr, dict(fr)
+        for t in sorted(set(data.columns.get_level_values(0))):        # the per-token frames a user hands to set_token_data (cells Decimal)
+            fr["aave:" + t] = data[t].copy()
+        return fr, {"aave": data, "prices": prices}
     if kind == "squeeth":
         from .props import c14
         act, um, sm = c14.build_actuator(list(raw), 0)
@@ -513,11 +515,14 @@ def actuator(kind: str, F: int, fr) -> World:
         from demeter.aave import AaveV3Market
         u = _aave_universe()
         m = AaveV3Market(MarketInfo("aave", MarketTypeEnum.aave_v3), u.csv, tokens=list(u.tok.values()))
-        m.data = fr["aave"]
+        if F == 1:                                         # the documented per-token way in (one frame per token, one csv each)
+            for t in sorted(k[5:] for k in fr if k.startswith("aave:")):
+                m.set_token_data(u.tok[t], fr["aave:" + t])
+        else:
+            m.data = fr["aave"]
         act.broker.add_market(m)
         act.set_price(fr["prices"])
-        act.broker.set_balance(u.tok["WETH"], D(10))
-        act.broker.set_balance(u.tok["USDT"], D(1000))
+        act.broker.set_balance(u.tok["WETH"], D(10))       # USDT joins the account with the first borrow (a token that is not there at bar 0)
         w.mem["tok"] = u.tok
         mk["aave"] = m
     elif kind == "squeeth":
